@@ -4,7 +4,7 @@ package extensionsupport
 
 //@ spec func handledOID(s string) bool = s == OidCertExtAuthorityKeyId || s == OidCrlExtCrlNumber
 
-//@ global handledCRLExtensions invariant[C06] handled_table: forall s string :: (has(handledCRLExtensions, s) && handledCRLExtensions[s]) <==> handledOID(s)
+//@ global handledCRLExtensions invariant[C06,C04,C11] handled_table: forall s string :: (has(handledCRLExtensions, s) && handledCRLExtensions[s]) <==> handledOID(s)
 
 //@ func FindExtension
 //@   props C07 C04
